@@ -2,10 +2,12 @@ SPEC = dict(
     claimed=True,
     title='A failing sensor or fan read/write never crashes the daemon',
     props_file='Props/C09.v', props_mod='Props.C09',
-    proof_files=['Proofs/Faults.v', 'Proofs/FaultsOps.v', 'Proofs/PanicSites.v', 'Proofs/Daemon.v', 'Drv/Faults.v', 'Drv/Daemon.v', 'Drv/CtlRun.v', 'Proofs/Restore.v'],
+    proof_files=['Proofs/Faults.v', 'Proofs/FaultsOps.v', 'Proofs/PanicSites.v', 'Proofs/Daemon.v', 'Drv/Faults.v', 'Drv/Daemon.v', 'Drv/CtlRun.v', 'Drv/SensMon.v', 'Proofs/Restore.v'],
     tie_vo=['Proofs/ConstsTie_basic.vo', 'Proofs/ConstsTie_restore.vo'],
     drivers=[dict(name='faults', drv_mod='Drv.Faults', drv_file='Drv/Faults.v', shard=300,
                   timeout={'quick': 900, 'thorough': 3000}),
+             dict(name='sensmon', drv_mod='Drv.SensMon', drv_file='Drv/SensMon.v', shard=60,
+                  args={'quick': ['reps=1'], 'thorough': ['reps=8']}, timeout={'quick': 600, 'thorough': 1800}),
              dict(name='ctlrun', drv_mod='Drv.CtlRun', drv_file='Drv/CtlRun.v', shard=50,
                   args={'quick': ['reps=1'], 'thorough': ['reps=6']}, timeout={'quick': 600, 'thorough': 1800}),
              dict(name='daemon', drv_mod='Drv.Daemon', drv_file='Drv/Daemon.v', shard=50,
@@ -18,7 +20,9 @@ SPEC = dict(
          'request reaches a value at which it stays (saturated curve, direct algorithm) on fans whose PWM cannot be read back (cmd fan without getPwm, file/hwmon fan with an unreadable pwm file) or with a read fault in the next cycle. '
          'Garbage reads return one of 19 file shapes / 12 command-output shapes (empty, whitespace-only, "\\n", "abc", "12abc", "1 2", "-", "0x10", overlong digits, NUL bytes, 5000 digits, NaN, Inf ...) chosen from the case selector; '
          'whitespace-only content is forced for every file read kind (sensor, rpm, pwm, pwm_enable read-back; regime and per-operation). Observer clause "with the last good data": the sensor-monitor poll (the real updateSensor, all three '
-         'sensor backends) of a cycle with a sensor fault leaves the moving average bit-identical, a good poll moves it by UpdateSimpleMovingAvg of the value shown. Observer clause "keeps regulating with the last good data": every cycle that ended without error and without a PWM-write fault (per-operation plans: without any fault) must leave the device at the PWM-map output of that cycle\'s request. daemon: process-level runs of the real RunDaemon (see C03) where a panic would be in another goroutine '
+         'sensor backends) of a cycle with a sensor fault leaves the moving average bit-identical, a good poll moves it by UpdateSimpleMovingAvg of the value shown. Observer clause "keeps regulating with the last good data": every cycle that ended without error and without a PWM-write fault (per-operation plans: without any fault) must leave the device at the PWM-map output of that cycle\'s request. sensmon: the real sensor monitor actor (NewSensorMonitor(...).Run with its ticker, 2 ms rate) on real hwmon/file/cmd sensors through fault-then-recovery poll sequences '
+         '(1-3 good, 1-5 failed or garbage, then at least as many good polls; two bursts): no panic, all planned polls happen, it stops when cancelled, every observed average follows from the previous one with the last good data. '
+         'The escape "last-resort write failed" of a stop is only accepted when the operation log shows that the original mode was asked for first. daemon: process-level runs of the real RunDaemon (see C03) where a panic would be in another goroutine '
          '(scenario 5: a controller fails its initialisation; 6/7: the sensor of a PID curve fails while regulating). ctlrun: the real Run in-process (see C03), incl. a control '
          'error while the device directory has vanished, so that the writes of restorePwmEnabled fail too (a panic inside Run is recovered and reported). Non-trivial = at least one fault in the plan; distinct = distinct case terms.',
     assumptions=[
